@@ -30,6 +30,7 @@ type HarnessCfg struct {
 	What      string                    `json:"what"`
 	NoReplay  bool                      `json:"no_replay"`
 	MaxSeconds map[string]int           `json:"max_seconds"`
+	Stubs      map[string]string        `json:"stubs"`
 }
 
 type CheckCfg struct {
@@ -207,6 +208,17 @@ func main() {
 		maxPaths := 200000
 		if v, ok := hc.MaxPaths[*tier]; ok {
 			maxPaths = v
+		}
+		P.ClearStubs()
+		for target, repl := range cfg.Stubs {
+			if err := P.AddStub(target, repl); err != nil {
+				fatalf(2, "stub %s: %v", target, err)
+			}
+		}
+		for target, repl := range hc.Stubs {
+			if err := P.AddStub(target, repl); err != nil {
+				fatalf(2, "stub %s: %v", target, err)
+			}
 		}
 		maxSec := 600
 		if *tier == "thorough" {
